@@ -196,6 +196,11 @@ pub fn judge_enc(
                         }
                     }
                 }
+                (out, EncExp::Bytes(e)) if *out != EncOut::Ok(0) && !matches!(out, EncOut::Ok(_)) => {
+                    // the property gives the encoding for every accepted argument value: a call the
+                    // reference encodes must not be turned away
+                    j.viols.push(("not-encoded", format!("{}: valid arguments (a {}-byte packet) were not encoded: {}", call.name(), e.len(), obs_of(&r))));
+                }
                 (out, EncExp::Refuse) if prop == "C08" && matches!(call, EncCall::Vendor { fmt, .. } if *fmt >= 2) => {
                     // "any other vendor ID format is refused with an error"
                     if *out != EncOut::Refused {
@@ -338,15 +343,25 @@ pub fn sweep_enc(
 ) {
     let na = addrs.n();
     let probe_s = probe_spec();
-    run.sweep_chunked(name, ncalls * na * nspecs, |acc, lo, hi| {
+    // "used" contexts: the same context after it has already encoded related calls
+    // (address-list sweeps only; the 128x128 / 256x256 sweeps run on unused contexts)
+    let nused: u64 = if matches!(addrs, Addrs::List(_)) { 2 } else { 1 };
+    run.sweep_chunked(name, ncalls * na * nspecs * nused, |acc, lo, hi| {
         let probe_o = Owned::new(&probe_s.cfg);
-        let probe = build(&probe_o, &probe_s.history);
         for i in lo..hi {
+            // nothing is shared between cases: every context is rebuilt
+            let probe = if prop == "C04" { build(&probe_o, &probe_s.history) } else { probe_o.ctx() };
             let mut ix = Ix(i);
+            let used = ix.take(nused) == 1;
             let si = ix.take(nspecs) as usize;
             let (src, dst) = addrs.get(ix.take(na));
             let call = call_at(ix.0);
-            let spec = enc_specs(src).swap_remove(si);
+            let mut spec = enc_specs(src).swap_remove(si);
+            if used {
+                for p in predecessors(&call) {
+                    spec.history.push(Event::Encode { call: p, dst: dst ^ 0x15 });
+                }
+            }
             let owned = Owned::new(&spec.cfg);
             let ctx = build(&owned, &spec.history);
             let eid_resp = build_ref(&spec).eid_resp;
@@ -427,7 +442,7 @@ fn all_spaces(tier: crate::engine::Tier) -> Vec<CallSpace> {
 // ---------------------------------------------------------------------------
 
 pub fn run_c03(run: &mut Run) {
-    run.rule = "every encoder kind (30) x all 128x128 (src,dst) x 2 argument tuples x 4 encoder contexts; the C06/C07/C08 argument spaces (byte parameters fully crossed, lanes) at 5 address pairs; 5 writers + vendor_defined with every data length 0..=255 x (4 backgrounds + walking byte at every position x 3 values); oracle: last byte == bitwise CRC-8(poly 0x07) of all preceding bytes; non-trivial = calls that produced a packet".into();
+    run.rule = "the responses process_packet generates (8 request kinds x instance id 0..=31 x D x rsvd x 16 address pairs x 3 responder states); every encoder kind (30) x all 128x128 (src,dst) x 2 argument tuples x 4 encoder contexts; the C06/C07/C08 argument spaces (byte parameters fully crossed, lanes) at 5 address pairs; 5 writers + vendor_defined with every data length 0..=255 x (4 backgrounds + walking byte at every position x 3 values); oracle: last byte == bitwise CRC-8(poly 0x07) of all preceding bytes; non-trivial = calls that produced a packet".into();
     run.bound("addresses", "128x128");
     run.bound("data_lengths", "0..=255 (totals 10..=269, refusals beyond 259 not judged here)");
     run.assume("bitwise CRC-8 reference shares no code with the smbus-pec table used by the library");
@@ -437,6 +452,80 @@ pub fn run_c03(run: &mut Run) {
     spaces_sweep(run, "C03", &sp, &five_pairs(), 1);
     let (n, f) = sized_space(255);
     sweep_enc(run, "C03", "writers x every data length x walking contents", n, &f, &Addrs::List(vec![(0x23, 0x34), (0x7F, 0x01)]), 2);
+    c03_responses(run);
+}
+
+/// C03 also covers the packets the library encodes on its own: the responses
+/// `process_packet` generates.
+fn judge_c03_response(spec: &CtxSpec, pkt: &[u8]) -> (Option<String>, String, bool) {
+    let owned = Owned::new(&spec.cfg);
+    let mut ctx = build(&owned, &spec.history);
+    let obs = subject::apply(&mut ctx, &Event::Process(pkt.to_vec()));
+    let crate::subject::StepOut::Proc { out, resp, .. } = &obs.out else { return (Some("harness: not a process step".into()), String::new(), false) };
+    let observed = format!("{:?} {}", out, hex(resp));
+    match out.resp_len {
+        Some(n) if n >= 1 && n <= resp.len() => {
+            let want = crc8(&resp[..n - 1]);
+            if resp[n - 1] != want {
+                (Some(format!("the response to {} is {}: last byte {:#04x} is not the CRC-8 {:#04x} of the preceding {} bytes", hex(pkt), hex(&resp[..n]), resp[n - 1], want, n - 1)), observed, true)
+            } else {
+                (None, observed, true)
+            }
+        }
+        _ => (None, observed, false),
+    }
+}
+
+fn c03_responses(run: &mut Run) {
+    // 8 answerable kinds x instance id 0..=31 x D bit x rsvd bit x 16 (requester, responder) pairs x 3 states
+    let pairs: Vec<(u8, u8)> = (0..16u8).map(|k| (k.wrapping_mul(37) & 0x7F, 0x7Fu8.wrapping_sub(k.wrapping_mul(11)) & 0x7F)).collect();
+    run.sweep("responses generated by process_packet: 8 request kinds x instance id x D x rsvd x 16 address pairs x 3 responder states", 8 * 32 * 2 * 2 * 16 * 3, |acc, i| {
+        let mut ix = Ix(i);
+        let st = ix.take(3);
+        let (requester, responder) = pairs[ix.take(16) as usize];
+        let rsvd = ix.take(2) == 1;
+        let d = ix.take(2) == 1;
+        let iid = ix.take(32) as u8;
+        let k = ix.take(8);
+        let (cmd, data): (u8, Vec<u8>) = match k {
+            0 => (0x01, vec![0, 0x5A]),
+            1 => (0x01, vec![1, 0xFE]),
+            2 => (0x01, vec![3, 0x01]),
+            3 => (0x02, vec![]),
+            4 => (0x03, vec![]),
+            5 => (0x04, vec![0xFF]),
+            6 => (0x05, vec![]),
+            _ => (0x06, vec![0]),
+        };
+        let mut pkt = forge_request(requester, responder, iid, d, cmd, &data);
+        if rsvd {
+            pkt[9] |= 0x20;
+            fix_pec(&mut pkt);
+        }
+        let cfg = Cfg { addr: responder, msg_types: vec![0x7E, 0x05], vendors: vec![(0, 0x1414, 4), (1, 0xDEADBEEF, 9)] };
+        let history = match st {
+            0 => vec![],
+            1 => vec![Event::Process(set_eid_req(0x10, responder, 0, 0x99))],
+            _ => vec![Event::SetUuid(U1), Event::SetEidResp(0x3C)],
+        };
+        let spec = CtxSpec { cfg, history };
+        acc.evals += 1;
+        let (v, observed, answered) = judge_c03_response(&spec, &pkt);
+        acc.trans += 1;
+        acc.validated += 1;
+        let f = Fnv::default().bytes(&pkt).u64(st).finish();
+        acc.state(f);
+        if answered {
+            acc.nontrivial(f);
+        }
+        acc.outcome2("process_packet response", if answered { "ok" } else { "no-packet" });
+        if i % 20_011 == 3 {
+            acc.sample(|| json!({"request": hex(&pkt), "observed": observed}));
+        }
+        if let Some(d) = v {
+            acc.violation(spec.history.len() as u64, "pec", d, || json!({"prop": "C03", "check": "response", "spec": spec, "request": hex(&pkt)}));
+        }
+    });
 }
 
 pub fn run_c04(run: &mut Run) {
@@ -500,8 +589,8 @@ pub fn run_c07(run: &mut Run) {
     let nc = combos.len() as u64;
     run.sweep_chunked("Set/Get EID responses x 256 stored EIDs x 3 ways of storing", nc * 256 * 3, |acc, lo, hi| {
         let probe_o = Owned::new(&probe_s.cfg);
-        let probe = build(&probe_o, &probe_s.history);
         for i in lo..hi {
+            let probe = probe_o.ctx();
             let mut ix = Ix(i);
             let eid = ix.take(256) as u8;
             let way = ix.take(3);
@@ -552,6 +641,12 @@ pub fn run_c16(run: &mut Run) {
 }
 
 pub fn replay_c03(c: &Value) -> Result<ReplayOut, String> {
+    if c["check"].as_str() == Some("response") {
+        let spec: CtxSpec = get_de(c, "spec")?;
+        let pkt = get_hex(c, "request")?;
+        let (v, observed, _) = judge_c03_response(&spec, &pkt);
+        return Ok(ReplayOut { violations: v.into_iter().collect(), observed });
+    }
     replay_enc("C03", c)
 }
 pub fn replay_c04(c: &Value) -> Result<ReplayOut, String> {
